@@ -1210,3 +1210,28 @@ else
         );
     }
 }
+
+/// Verification hooks (feature `pasfmt_verif`): read-only views and forwarding wrappers.
+#[cfg(feature = "pasfmt_verif")]
+pub mod verif_hooks_formatter {
+    use super::*;
+
+    /// (raw token consolidators, post-parse consolidators, ignorers, removers, formatters)
+    pub fn stage_counts(f: &Formatter) -> (usize, usize, usize, usize, usize) {
+        (
+            f.token_consolidators.len(),
+            f.post_parse_consolidators.len(),
+            f.token_ignorers.len(),
+            f.token_removers.len(),
+            f.logical_line_formatters.len(),
+        )
+    }
+
+    pub fn delete_marked_tokens(
+        token_marker: TokenMarker,
+        tokens: &mut Vec<Token>,
+        lines: &mut [LogicalLine],
+    ) {
+        super::delete_marked_tokens(token_marker, tokens, lines, None)
+    }
+}
